@@ -188,6 +188,10 @@ func (r *Run) Emit(op, obs string) {
 	} else if digestOut != nil && len(opGas) > 0 {
 		fmt.Fprintf(digestOut, "op=%d gas=%s\n", r.nOps, takeGas())
 	}
+	if c18Mode != "" {
+		// C18 continue-after-import: epoch bookkeeping; a fork where the replay file carries a marker after this op
+		c18AfterEmit(r)
+	}
 	if r.AutoClass {
 		r.Class(op, obs != "err" && obs != "bad-op")
 	}
@@ -210,14 +214,17 @@ func (r *Run) Class(key string, nontrivial bool) {
 // recent fixture) additionally goes through the generic genesis export / import comparison.
 func (r *Run) Trace() {
 	r.traces++
-	if os.Getenv("VERIF_C18") != "" && lastFix != nil {
-		c18Generic(r, lastFix, r.curTrace)
+	if c18Mode != "" && lastFix != nil {
+		c18TraceEnd(r, lastFix, r.curTrace)
 	}
 	r.curTrace = nil
 }
 func (r *Run) Set(k string, v any) { r.extra[k] = v }
 func (r *Run) Violations() int     { return len(r.viol) }
 func (r *Run) Violate(sig, detail string, replay ...string) {
+	if c18Straddles(r, sig) {
+		return
+	}
 	for _, v := range r.viol {
 		if v.Signature == sig && len(v.Replay) <= len(replay) {
 			return // keep the shortest replay per signature
@@ -300,6 +307,12 @@ func ReplayLines() []string {
 	for _, l := range strings.Split(string(b), "\n") {
 		l = strings.TrimSpace(l)
 		if l == "" || strings.HasPrefix(l, "#") {
+			continue
+		}
+		if l == c18ForkMarker {
+			// not an op of any package: after the op before it the chain is exported, imported into a
+			// fresh application and the rest of the trace runs there (c18_fork.go)
+			c18ForkAt[len(out)] = true
 			continue
 		}
 		out = append(out, l)
